@@ -216,6 +216,66 @@ pub fn area_event(id: u64) -> Value {
     json!({"op": "area", "id": quads(id), "res": res, "dev_ppm": area_dev_ppm(id, 64).unwrap_or(999999)})
 }
 
+/// Continuity scan of the face -> sphere map along rays from every face centre: second differences of
+/// inverse(rho * dir) at a step fine enough (2e-6 face units; smooth part 0.77 h^2 = 3e-12) to expose tears of a few
+/// 1e-11 rad, i.e. a fraction of a millimetre, wherever a closed-form shortcut switches (circles around the face
+/// centre, lines parallel to the face edge, the edge itself); each anomaly is localised by bisection to 1e-13.
+/// Returns the lon/lat of the anomalies.  One thread per face.
+pub fn continuity_flags(tier: &str) -> Vec<LonLat> {
+    use a5::coordinate_systems::Face;
+    let nrays = if tier == "thorough" { 24 } else { 6 };
+    let mut handles = vec![];
+    for origin in 0..12u8 {
+        handles.push(std::thread::spawn(move || {
+            let mut proj = DodecahedronProjection::new().unwrap();
+            let mut out: Vec<LonLat> = vec![];
+            for k in 0..nrays {
+                let ang = (k as f64 + 0.37 + 0.11 * origin as f64) * std::f64::consts::TAU / nrays as f64;
+                let (ca, sa) = (ang.cos(), ang.sin());
+                let f = |proj: &mut DodecahedronProjection, rho: f64| -> [f64; 3] {
+                    let s = proj.inverse(Face::new(rho * ca, rho * sa), origin).unwrap();
+                    let (t, p) = (s.theta().get(), s.phi().get());
+                    [p.sin() * t.cos(), p.sin() * t.sin(), p.cos()]
+                };
+                let d2 = |a: [f64; 3], b: [f64; 3], c: [f64; 3]| ((a[0] - 2.0 * b[0] + c[0]).powi(2) + (a[1] - 2.0 * b[1] + c[1]).powi(2) + (a[2] - 2.0 * b[2] + c[2]).powi(2)).sqrt();
+                // geometric steps close to the centre, then a uniform fine step; consecutive samples are reused
+                let mut rho = 1e-6;
+                let mut last_flag = 0.0;
+                let (mut pa, mut pb) = (f(&mut proj, rho * (1.0 - 1e-3)), f(&mut proj, rho));
+                let mut h_prev = 1e-3 * rho;
+                while rho < 0.72 {
+                    let h = (1e-3 * rho).min(2e-6);
+                    if (h - h_prev).abs() > 1e-18 * h.max(1e-30) && h != h_prev { pa = f(&mut proj, rho - h); }
+                    let pc = f(&mut proj, rho + h);
+                    let dd = d2(pa, pb, pc);
+                    if dd > 2.5 * h * h + 8e-15 && rho > last_flag + 40.0 * h {
+                        let (mut rc, mut hc) = (rho, h);
+                        for _ in 0..40 {
+                            hc *= 0.5;
+                            if hc < 1e-13 { break; }
+                            let mut best = (0.0, rc);
+                            for cand in [rc - hc, rc, rc + hc] {
+                                let v = d2(f(&mut proj, cand - hc), f(&mut proj, cand), f(&mut proj, cand + hc));
+                                if v > best.0 { best = (v, cand); }
+                            }
+                            rc = best.1;
+                        }
+                        let sp = proj.inverse(Face::new(rc * ca, rc * sa), origin).unwrap();
+                        out.push(a5::core::coordinate_transforms::to_lon_lat(sp));
+                        last_flag = rho;
+                    }
+                    pa = pb; pb = pc; h_prev = h;
+                    rho += h;
+                }
+            }
+            out
+        }));
+    }
+    let mut all = vec![];
+    for h in handles { all.extend(h.join().unwrap()); }
+    all
+}
+
 pub fn gen_c04(tier: &str, seed: u64, out: &str) -> Value {
     let mut rng = Rng::new(seed ^ 0xC04);
     let mut t = Trace::new(out, "c04", 400);
@@ -243,63 +303,15 @@ pub fn gen_c04(tier: &str, seed: u64, out: &str) -> Value {
             t.emit(area_event(id)); n += 1; t.cut();
         } } }
     }
-    // continuity scan of the face -> sphere map along rays from every face centre: second differences at geometric steps
-    // flag kinks and tears (sector borders, the face edge, switch points of closed-form shortcuts); the cells that
-    // contain a flagged point are then measured like any other cell -- the scan only chooses WHERE to look
-    let mut flagged: Vec<(u8, f64, f64)> = vec![];
-    {
-        use a5::coordinate_systems::Face;
-        use a5::projections::dodecahedron::DodecahedronProjection;
-        let mut proj = DodecahedronProjection::new().unwrap();
-        let nrays = if tier == "thorough" { 40 } else { 10 };
-        for origin in 0..12u8 {
-            for k in 0..nrays {
-                let ang = (k as f64 + 0.37) * std::f64::consts::TAU / nrays as f64;
-                let (ca, sa) = (ang.cos(), ang.sin());
-                let f = |proj: &mut DodecahedronProjection, rho: f64| -> [f64; 3] {
-                    let s = proj.inverse(Face::new(rho * ca, rho * sa), origin).unwrap();
-                    let (t, p) = (s.theta().get(), s.phi().get());
-                    [p.sin() * t.cos(), p.sin() * t.sin(), p.cos()]
-                };
-                let mut rho = 1e-6;
-                let mut last_flag = 0.0;
-                while rho < 0.72 {
-                    let h = 1e-3 * rho;
-                    let (a, b, c) = (f(&mut proj, rho - h), f(&mut proj, rho), f(&mut proj, rho + h));
-                    let d2 = ((a[0] - 2.0 * b[0] + c[0]).powi(2) + (a[1] - 2.0 * b[1] + c[1]).powi(2) + (a[2] - 2.0 * b[2] + c[2]).powi(2)).sqrt();
-                    if d2 > 3.0 * h * h + 1e-14 && rho > 1.05 * last_flag {
-                        // localise the anomaly: halve the step, keep the centre with the largest second difference
-                        let (mut rc, mut hc) = (rho, h);
-                        for _ in 0..40 {
-                            hc *= 0.5;
-                            if hc < 1e-13 { break; }
-                            let mut best = (0.0, rc);
-                            for cand in [rc - hc, rc, rc + hc] {
-                                let (a, b, c) = (f(&mut proj, cand - hc), f(&mut proj, cand), f(&mut proj, cand + hc));
-                                let dd = ((a[0] - 2.0 * b[0] + c[0]).powi(2) + (a[1] - 2.0 * b[1] + c[1]).powi(2) + (a[2] - 2.0 * b[2] + c[2]).powi(2)).sqrt();
-                                if dd > best.0 { best = (dd, cand); }
-                            }
-                            rc = best.1;
-                        }
-                        flagged.push((origin, rc * ca, rc * sa));
-                        last_flag = rho;
-                    }
-                    rho += h;
-                }
-            }
+    // continuity scan of the face -> sphere map (see continuity_flags): the cells that contain a flagged point are
+    // measured like any other cell -- the scan only chooses WHERE to look
+    let flagged = continuity_flags(tier);
+    for ll in &flagged {
+        for r in (if tier == "thorough" { 6 } else { 12 })..=29 {
+            if tier != "thorough" && r % 2 == 1 && r < 22 { continue; }
+            if let Ok(id) = a5::lonlat_to_cell(*ll, r) { t.emit(area_event(id)); n += 1; }
         }
-        let mut proj2 = DodecahedronProjection::new().unwrap();
-        let mut n_flag_cells = 0u64;
-        for (origin, x, y) in &flagged {
-            let sp = proj2.inverse(Face::new(*x, *y), *origin).unwrap();
-            let ll = a5::core::coordinate_transforms::to_lon_lat(sp);
-            for r in (if tier == "thorough" { 6 } else { 12 })..=29 {
-                if tier != "thorough" && r % 2 == 1 && r < 24 { continue; }
-                if let Ok(id) = a5::lonlat_to_cell(ll, r) { t.emit(area_event(id)); n += 1; n_flag_cells += 1; }
-            }
-            t.cut();
-        }
-        let _ = n_flag_cells;
+        t.cut();
     }
     // cells at poles, face vertices, seams: found by lookup
     for r in 0..=29 {
